@@ -195,6 +195,12 @@ impl Scenario for C05 {
             }
             _ => {}
         }
+        // the kind of I/O error a reset / failing write reports varies with the crash point (none of them is
+        // "try again later": each must end the connection as a socket error)
+        if kind == 1 || kind == 2 {
+            life.gen.net.err_kind = (point as usize / 3) % crate::stream::ERR_KINDS.len();
+            rep.count(&format!("c05.io_error_kind.{:?}", crate::stream::ERR_KINDS[life.gen.net.err_kind]), 1);
+        }
         let wr_at = if kind == 2 { Some(point as u64) } else { None };
         let (res, world) = run_generated(&life.gen, cs, text, |w| {
             if let Some(n) = wr_at {
